@@ -595,4 +595,319 @@ example :
     (0 : Rat) ≤ 90 - sumR [20, 20] - ((([20, 20] : List Rat).length : Int) - 1 : Int) * 10 := by
   decide +kernel
 
+/-! ## step 1.4: auto-placement takes the *first* free position (dense: from the start of the grid; sparse: from the cursor) -/
+
+
+/-- dense packing, second axis given (step 1.4): the loop returns the *first* candidate, counted from where the search
+starts, that is not before the start of the grid and overlaps nothing placed before: every earlier candidate was
+rejected for one of these two reasons. -/
+theorem denseLocked_first (ffr : Bool) (fs fe : Place) (fl : List (List String)) (si ssz cfirst : Int)
+    (positions : List Area) :
+    ∀ (fuel : Nat) (k fi fsz : Int),
+      denseLocked ffr fs fe fl si ssz cfirst positions fuel k = .ok (fi, fsz) →
+      ∃ k', k ≤ k' ∧ placeAt fs fe fl k' = .ok (fi, fsz) ∧ cfirst ≤ fi ∧
+        ∀ j, k ≤ j → j < k' → ∀ p, placeAt fs fe fl j = .ok p →
+          p.1 < cfirst ∨ areaIntersects (mkArea ffr p.1 p.2 si ssz) positions = true := by
+  intro fuel
+  induction fuel with
+  | zero => intro k fi fsz h; simp [denseLocked, throw, throwThe, MonadExceptOf.throw] at h
+  | succ n ih =>
+    intro k fi fsz h
+    unfold denseLocked at h
+    simp only [bind, Except.bind] at h
+    cases h1 : placeAt fs fe fl k with
+    | error e => simp [h1] at h
+    | ok p =>
+      obtain ⟨fi1, fsz1⟩ := p
+      simp only [h1] at h
+      by_cases hlt : fi1 < cfirst
+      · simp only [hlt, if_true] at h
+        obtain ⟨k', hk, hp, hc, hall⟩ := ih _ _ _ h
+        refine ⟨k', by omega, hp, hc, ?_⟩
+        intro j hj1 hj2 p hpj
+        by_cases hjk : j = k
+        · subst hjk; rw [h1] at hpj; cases hpj; exact Or.inl hlt
+        · exact hall j (by omega) hj2 p hpj
+      · simp only [hlt, if_false] at h
+        by_cases hc : areaIntersects (mkArea ffr fi1 fsz1 si ssz) positions = true
+        · simp only [hc, if_true] at h
+          obtain ⟨k', hk, hp, hc', hall⟩ := ih _ _ _ h
+          refine ⟨k', by omega, hp, hc', ?_⟩
+          intro j hj1 hj2 p hpj
+          by_cases hjk : j = k
+          · subst hjk; rw [h1] at hpj; cases hpj; exact Or.inr hc
+          · exact hall j (by omega) hj2 p hpj
+        · simp only [hc, pure, Except.pure] at h
+          cases h
+          refine ⟨k, Int.le_refl _, h1, by omega, ?_⟩
+          intro j hj1 hj2; omega
+
+/-- an item whose auto-flow axis is fully automatic is tried in track `k`, one track wide -/
+theorem placeAt_auto (fl : List (List String)) (k : Int) : placeAt .auto .auto fl k = .ok (k, 1) := by
+  unfold placeAt getPlacement!
+  simp [placement_line_auto, bind, Except.bind, pure, Except.pure]
+
+/-- dense packing, item locked to tracks `si … si+ssz−1` of the second axis and automatic on the auto-flow axis
+(`grid-column: N` in a `row dense` grid): it lands in the first row, from the start of the grid, where these tracks are
+free — every row between the start of the grid and its row is occupied there (css-grid 8.5, the clause that the
+`dense_violation` oracle samples, for all inputs). -/
+theorem denseLocked_auto_first (ffr : Bool) (fl : List (List String)) (si ssz cfirst : Int)
+    (positions : List Area) (fuel : Nat) (fi fsz : Int)
+    (h : denseLocked ffr .auto .auto fl si ssz cfirst positions fuel cfirst = .ok (fi, fsz)) :
+    fsz = 1 ∧ cfirst ≤ fi ∧ areaIntersects (mkArea ffr fi 1 si ssz) positions = false ∧
+    ∀ j, cfirst ≤ j → j < fi → areaIntersects (mkArea ffr j 1 si ssz) positions = true := by
+  obtain ⟨k', hk, hp, hc, hall⟩ := denseLocked_first ffr .auto .auto fl si ssz cfirst positions fuel cfirst fi fsz h
+  rw [placeAt_auto] at hp
+  cases hp
+  refine ⟨rfl, hc, ?_, ?_⟩
+  · exact denseLocked_free ffr .auto .auto fl si ssz cfirst positions fuel cfirst _ _ h
+  · intro j hj1 hj2
+    rcases hall j hj1 hj2 (j, 1) (placeAt_auto fl j) with h' | h'
+    · simp at h'; omega
+    · exact h'
+
+/-- sparse packing, second axis given: the cursor stops at the *first* position, at or after where it was, whose
+candidate is not before the cursor and overlaps nothing. -/
+theorem sparseLocked_first (ffr : Bool) (fs fe : Place) (fl : List (List String)) (si ssz : Int)
+    (positions : List Area) :
+    ∀ (fuel : Nat) (cf cf' fi fsz : Int),
+      sparseLocked ffr fs fe fl si ssz positions fuel cf = .ok (cf', fi, fsz) →
+      placeAt fs fe fl cf' = .ok (fi, fsz) ∧
+        ∀ j, cf ≤ j → j < cf' → ∀ p, placeAt fs fe fl j = .ok p →
+          p.1 < j ∨ areaIntersects (mkArea ffr p.1 p.2 si ssz) positions = true := by
+  intro fuel
+  induction fuel with
+  | zero => intro cf cf' fi fsz h; simp [sparseLocked, throw, throwThe, MonadExceptOf.throw] at h
+  | succ n ih =>
+    intro cf cf' fi fsz h
+    have hcur := sparseLocked_cursor ffr fs fe fl si ssz positions (n + 1) cf cf' fi fsz h
+    unfold sparseLocked at h
+    simp only [bind, Except.bind] at h
+    cases h1 : placeAt fs fe fl cf with
+    | error e => simp [h1] at h
+    | ok p =>
+      obtain ⟨fi1, fsz1⟩ := p
+      simp only [h1] at h
+      by_cases hlt : fi1 < cf
+      · simp only [hlt, if_true] at h
+        obtain ⟨hp, hall⟩ := ih _ _ _ _ h
+        refine ⟨hp, ?_⟩
+        intro j hj1 hj2 p hpj
+        by_cases hjk : j = cf
+        · subst hjk; rw [h1] at hpj; cases hpj; exact Or.inl hlt
+        · exact hall j (by omega) hj2 p hpj
+      · simp only [hlt, if_false] at h
+        by_cases hc : areaIntersects (mkArea ffr fi1 fsz1 si ssz) positions = true
+        · simp only [hc, if_true] at h
+          obtain ⟨hp, hall⟩ := ih _ _ _ _ h
+          refine ⟨hp, ?_⟩
+          intro j hj1 hj2 p hpj
+          by_cases hjk : j = cf
+          · subst hjk; rw [h1] at hpj; cases hpj; exact Or.inr hc
+          · exact hall j (by omega) hj2 p hpj
+        · simp only [hc, pure, Except.pure] at h
+          cases h
+          refine ⟨h1, ?_⟩
+          intro j hj1 hj2; omega
+
+/-- dense packing at the level of step 1.4 of `grid_layout`: an item locked on the second axis and automatic on the
+auto-flow axis is appended to `children_positions` in the first track of the auto-flow axis, counted from the start of
+the implicit grid (`implicit_first_1`: the cursor is reset for every such item), where its tracks are free. -/
+theorem step14DenseGiven_first (ctx : PCtx) (st st' : PState) (it : GItem) (si ssz : Int)
+    (hauto : itemFirst ctx.flowColumn it = (.auto, .auto))
+    (h : step14DenseGiven ctx st it si ssz = .ok st') :
+    ∃ fi, st'.positions = st.positions ++ [(it.id, mkArea ctx.firstFlowRow fi 1 si ssz)] ∧
+      ctx.implicitFirst1 ≤ fi ∧ areaIntersects (mkArea ctx.firstFlowRow fi 1 si ssz) st.areas = false ∧
+      ∀ j, ctx.implicitFirst1 ≤ j → j < fi →
+        areaIntersects (mkArea ctx.firstFlowRow j 1 si ssz) st.areas = true := by
+  unfold step14DenseGiven at h
+  simp only [bind, Except.bind] at h
+  cases h1 : denseLocked ctx.firstFlowRow (itemFirst ctx.flowColumn it).1 (itemFirst ctx.flowColumn it).2
+      ctx.flines si ssz ctx.implicitFirst1 st.areas countBound ctx.implicitFirst1 with
+  | error e => simp [h1] at h
+  | ok r =>
+    obtain ⟨fi, fsz⟩ := r
+    simp only [h1, pure, Except.pure] at h
+    cases h
+    rw [hauto] at h1
+    obtain ⟨hsz, hge, hfree, hall⟩ := denseLocked_auto_first _ _ _ _ _ _ _ _ _ h1
+    subst hsz
+    exact ⟨fi, rfl, hge, hfree, hall⟩
+
+-- the situation of a column-locked item after the cursor has left a hole: cell (0, 0) and the whole row 1 are taken, the
+-- item locked to column 1 goes back to row 0 (and the hypotheses of the theorems above are met)
+example : (denseLocked true .auto .auto [[], [], []] 1 1 0 [(0, 0, 1, 1), (0, 1, 3, 1)] countBound 0).toOption =
+    some (0, 1) := by decide +kernel
+
+-- ... and when column 1 is taken in rows 0 and 1 it goes to row 2, the first free one
+example : (denseLocked true .auto .auto [[], [], []] 1 1 0 [(0, 0, 2, 1), (0, 1, 3, 1)] countBound 0).toOption =
+    some (2, 1) := by decide +kernel
+
+-- sparse: from cursor 1 the same item stays at or after the cursor
+example : (sparseLocked true .auto .auto [[], [], []] 1 1 [(0, 0, 1, 1), (0, 1, 3, 1)] countBound 1).toOption =
+    some (2, 2, 1) := by decide +kernel
+
+
+theorem rangeInt_nil (a b : Int) (h : b ≤ a) : rangeInt a b = [] := by
+  unfold rangeInt
+  have : (b - a).toNat = 0 := by omega
+  rw [this]; rfl
+
+theorem rangeInt_cons (a b : Int) (h : a < b) : rangeInt a b = a :: rangeInt (a + 1) b := by
+  unfold rangeInt
+  have hn : (b - a).toNat = (b - (a + 1)).toNat + 1 := by omega
+  rw [hn, List.range_succ_eq_map]
+  simp only [List.map_cons, List.map_map]
+  congr 1
+  · simp
+  · apply List.map_congr_left
+    intro k _
+    simp only [Function.comp]
+    push_cast
+    omega
+
+/-- the scan of one row (resp. column) by a fully automatic 1 × 1 item -/
+theorem scanRange_auto (ffr : Bool) (fl sl : List (List String)) (b : Int) (positions : List Area) (fi : Int) :
+    ∀ (n : Nat) (c : Int), (b - c).toNat = n →
+      ∀ found fi', scanSecond ffr .auto .auto .auto .auto fl sl b positions (rangeInt c b) fi = .ok (found, fi') →
+        fi' = fi ∧
+        match found with
+        | some (a, fsz) => ∃ s, c ≤ s ∧ s < b ∧ a = mkArea ffr fi 1 s 1 ∧ fsz = 1 ∧
+            areaIntersects a positions = false ∧
+            ∀ t, c ≤ t → t < s → areaIntersects (mkArea ffr fi 1 t 1) positions = true
+        | none => ∀ t, c ≤ t → t < b → areaIntersects (mkArea ffr fi 1 t 1) positions = true := by
+  intro n
+  induction n with
+  | zero =>
+    intro c hn found fi' h
+    rw [rangeInt_nil c b (by omega)] at h
+    simp [scanSecond, pure, Except.pure] at h
+    obtain ⟨rfl, rfl⟩ := h
+    exact ⟨rfl, by intro t h1 h2; omega⟩
+  | succ m ih =>
+    intro c hn found fi' h
+    have hlt : c < b := by omega
+    rw [rangeInt_cons c b hlt] at h
+    unfold scanSecond at h
+    simp only [bind, Except.bind, placeAt_auto] at h
+    by_cases hc : areaIntersects (mkArea ffr fi 1 c 1) positions = true
+    · simp only [hc, Bool.true_or, if_true] at h
+      obtain ⟨hfi, hrest⟩ := ih (c + 1) (by omega) found fi' h
+      refine ⟨hfi, ?_⟩
+      cases found with
+      | none =>
+        intro t h1 h2
+        by_cases htc : t = c
+        · subst htc; exact hc
+        · exact hrest t (by omega) h2
+      | some r =>
+        obtain ⟨a, fsz⟩ := r
+        obtain ⟨s, hs1, hs2, ha, hf, hfree, hall⟩ := hrest
+        refine ⟨s, by omega, hs2, ha, hf, hfree, ?_⟩
+        intro t h1 h2
+        by_cases htc : t = c
+        · subst htc; exact hc
+        · exact hall t (by omega) h2
+    · have hov : ¬ (c + 1 > b) := by omega
+      simp only [hc, Bool.false_or, hov, decide_false, Bool.false_eq_true, if_false, pure, Except.pure] at h
+      cases h
+      refine ⟨rfl, c, Int.le_refl _, hlt, rfl, rfl, by simpa using hc, ?_⟩
+      intro t h1 h2; omega
+
+/-- dense / sparse packing, both axes automatic (step 1.4, fully automatic 1 × 1 item): the `while True` loop returns the
+*first free cell in auto-flow order* from the cursor `(cf, cs)`: the cells of its own row before it, and every cell of the
+rows between the cursor's row and its row (from `cs` in the cursor's row, from the start of the implicit grid `is1` in
+the following ones), are occupied.  With the cursor reset to the start of the grid (dense packing) this is the
+`dense_violation` clause for all inputs; with the running cursor (sparse) the item never goes back before the cursor. -/
+theorem freeLoop_auto_first (ffr : Bool) (fl sl : List (List String)) (is1 is2 : Int) (positions : List Area) :
+    ∀ (fuel : Nat) (cf cs if2 : Int) (a : Area) (fsz cf' cs' if2' fi' : Int),
+      freeLoop ffr .auto .auto .auto .auto fl sl is1 is2 positions fuel cf cs if2 = .ok (a, fsz, cf', cs', if2', fi') →
+      cf ≤ cf' ∧ ∃ s, a = mkArea ffr cf' 1 s 1 ∧ s < is2 ∧ areaIntersects a positions = false ∧
+        (if cf' = cf then cs else is1) ≤ s ∧
+        (∀ t, (if cf' = cf then cs else is1) ≤ t → t < s →
+          areaIntersects (mkArea ffr cf' 1 t 1) positions = true) ∧
+        (∀ r t, cf ≤ r → r < cf' → (if r = cf then cs else is1) ≤ t → t < is2 →
+          areaIntersects (mkArea ffr r 1 t 1) positions = true) := by
+  intro fuel
+  induction fuel with
+  | zero => intro cf cs if2 a fsz cf' cs' if2' fi' h; simp [freeLoop, throw, throwThe, MonadExceptOf.throw] at h
+  | succ n ih =>
+    intro cf cs if2 a fsz cf' cs' if2' fi' h
+    unfold freeLoop at h
+    simp only [bind, Except.bind] at h
+    cases hscan : scanSecond ffr .auto .auto .auto .auto fl sl is2 positions (rangeInt cs is2) cf with
+    | error e => simp [hscan] at h
+    | ok r =>
+      obtain ⟨found, fi⟩ := r
+      simp only [hscan] at h
+      have hs := scanRange_auto ffr fl sl is2 positions cf _ cs rfl found fi hscan
+      cases found with
+      | some q =>
+        obtain ⟨a0, fsz0⟩ := q
+        simp only [pure, Except.pure] at h
+        cases h
+        obtain ⟨_, s, hs1, hs2, ha, _, hfree, hall⟩ := hs
+        refine ⟨Int.le_refl _, s, ha, hs2, hfree, by simpa using hs1, ?_, ?_⟩
+        · intro t h1 h2
+          simp only [if_true] at h1
+          exact hall t h1 h2
+        · intro r t h1 h2; omega
+      | none =>
+        simp only [] at h
+        obtain ⟨hle, s, ha, hs2, hfree, hstart, hrow, hrows⟩ := ih _ _ _ _ _ _ _ _ _ h
+        have hne : ¬ (cf' = cf) := by omega
+        have hif : (if cf' = cf + 1 then is1 else is1) = is1 := by split <;> rfl
+        rw [hif] at hstart hrow
+        refine ⟨by omega, s, ha, hs2, hfree, by simpa [hne] using hstart, ?_, ?_⟩
+        · intro t h1 h2
+          simp only [hne, if_false] at h1
+          exact hrow t h1 h2
+        · intro r t h1 h2 h3 h4
+          by_cases hr : r = cf
+          · subst hr
+            simp only [if_true] at h3
+            exact hs.2 t h3 h4
+          · simp only [hr, if_false] at h3
+            have hif2 : (if r = cf + 1 then is1 else is1) = is1 := by split <;> rfl
+            exact hrows r t (by omega) h2 (by rw [hif2]; exact h3) h4
+
+-- two columns, cells (0,0), (1,0) and (0,1) taken: a fully automatic item searching from the start of the grid takes (1,1)
+example : ((freeLoop true .auto .auto .auto .auto [[], []] [[], [], []] 0 2 [(0, 0, 1, 1), (1, 0, 1, 1), (0, 1, 1, 1)]
+    whileBound 0 0 1).toOption.map fun r => r.1) = some (1, 1, 1, 1) := by decide +kernel
+
+/-- dense packing at the level of step 1.4 of `grid_layout`, fully automatic 1 × 1 item: it is appended to
+`children_positions` in the first free cell, in auto-flow order, from the start of the implicit grid
+(`implicit_first_1`, `implicit_second_1`: the cursor is reset for every item). -/
+theorem step14DenseFree_first (ctx : PCtx) (st st' : PState) (it : GItem)
+    (hf : itemFirst ctx.flowColumn it = (.auto, .auto)) (hs : itemSecond ctx.flowColumn it = (.auto, .auto))
+    (h : step14DenseFree ctx st it = .ok st') :
+    ∃ r s, st'.positions = st.positions ++ [(it.id, mkArea ctx.firstFlowRow r 1 s 1)] ∧
+      ctx.implicitFirst1 ≤ r ∧ ctx.implicitSecond1 ≤ s ∧ s < ctx.implicitSecond2 ∧
+      areaIntersects (mkArea ctx.firstFlowRow r 1 s 1) st.areas = false ∧
+      (∀ t, ctx.implicitSecond1 ≤ t → t < s → areaIntersects (mkArea ctx.firstFlowRow r 1 t 1) st.areas = true) ∧
+      (∀ r' t, ctx.implicitFirst1 ≤ r' → r' < r → ctx.implicitSecond1 ≤ t → t < ctx.implicitSecond2 →
+        areaIntersects (mkArea ctx.firstFlowRow r' 1 t 1) st.areas = true) := by
+  unfold step14DenseFree at h
+  simp only [bind, Except.bind] at h
+  cases h1 : freeLoop ctx.firstFlowRow (itemFirst ctx.flowColumn it).1 (itemFirst ctx.flowColumn it).2
+      (itemSecond ctx.flowColumn it).1 (itemSecond ctx.flowColumn it).2 ctx.flines ctx.slines
+      ctx.implicitSecond1 ctx.implicitSecond2 st.areas whileBound ctx.implicitFirst1 ctx.implicitSecond1
+      st.implicitFirst2 with
+  | error e => simp [h1] at h
+  | ok q =>
+    obtain ⟨a, fsz, cf, cs, if2, fi⟩ := q
+    simp only [h1, pure, Except.pure] at h
+    cases h
+    rw [hf, hs] at h1
+    obtain ⟨hle, s, ha, hs2, hfree, hstart, hrow, hrows⟩ := freeLoop_auto_first _ _ _ _ _ _ _ _ _ _ _ _ _ _ _ _ h1
+    have hif : (if cf = ctx.implicitFirst1 then ctx.implicitSecond1 else ctx.implicitSecond1) = ctx.implicitSecond1 := by
+      split <;> rfl
+    rw [hif] at hstart hrow
+    subst ha
+    refine ⟨cf, s, rfl, hle, hstart, hs2, hfree, hrow, ?_⟩
+    intro r' t h1' h2' h3' h4'
+    have hif2 : (if r' = ctx.implicitFirst1 then ctx.implicitSecond1 else ctx.implicitSecond1) = ctx.implicitSecond1 := by
+      split <;> rfl
+    exact hrows r' t h1' h2' (by rw [hif2]; exact h3') h4'
+
 end Wp.C12
